@@ -1105,12 +1105,17 @@ def override(index, rep):
         raise AnalysisError("set_depending_on_option: head-count override writer not found")
     wkey = wr.targets[0].slice
     main = index.func(ANIM, "main")
+    # the reader sits in main() or in a module-level set-up function main() calls
+    called = {c_.func.id for c_ in ast.walk(main) if isinstance(c_, ast.Call) and isinstance(c_.func, ast.Name)}
+    hosts = [main] + [f_ for f_ in index.module(ANIM).body if isinstance(f_, ast.FunctionDef) and f_.name in called]
     rd = None
-    for st in walk_no_nested(main):
-        if isinstance(st, ast.If) and "_head_start" in norm_src(st.test):
-            for s in st.body:
-                if isinstance(s, ast.Assign) and isinstance(s.targets[0], ast.Subscript):
-                    rd = s
+    for host in hosts:
+        for st in walk_no_nested(host):
+            if isinstance(st, ast.If) and "_head_start" in norm_src(st.test):
+                for s in st.body:
+                    if isinstance(s, ast.Assign) and isinstance(s.targets[0], ast.Subscript):
+                        rd = s
+                        main = host
     if rd is None:
         raise AnalysisError("animal_populations.main: head-count override reader not found")
     tgt = rd.targets[0]
